@@ -139,7 +139,7 @@ def item_update(I, c):
 
 def key_tuple(k):
     k = deref(k)
-    if isinstance(k, St) and k.ty == '()':
+    if isinstance(k, St) and k.short == '()':
         out = []
         for x in k.f:
             out.extend(key_tuple(x))
@@ -189,7 +189,7 @@ def _indexes_of(imap):
     if imap.ty != 'IndexedMap':
         return []
     idx = imap.f[1]
-    return [x for x in idx.f if isinstance(x, St) and x.ty in ('UniqueIndex', 'MultiIndex')]
+    return [x for x in idx.f if isinstance(x, St) and x.short in ('UniqueIndex', 'MultiIndex')]
 
 
 @model_re(r'^(cw_storage_plus::)?(Map|IndexedMap)::save$')
@@ -200,7 +200,7 @@ def map_save(I, c):
     e = map_lookup(I, ms, key)
     # unique indexes: a different primary key with the same index value is an error
     for ix in _indexes_of(c.args[0]):
-        if ix.ty == 'UniqueIndex':
+        if ix.short == 'UniqueIndex':
             iv = I.call_value(ix.f[0], [Ref([val], 0)])
             for o in ms.entries:
                 if o is e:
@@ -394,13 +394,13 @@ def submsg(msg, reply_on='Never', id_=0, payload=None):
 
 def to_cosmos(v):
     v = deref(v)
-    if isinstance(v, En) and v.ty == 'CosmosMsg':
+    if isinstance(v, En) and v.short == 'CosmosMsg':
         return v
-    if isinstance(v, En) and v.ty == 'BankMsg':
+    if isinstance(v, En) and v.short == 'BankMsg':
         return En('CosmosMsg', 'Bank', [v])
-    if isinstance(v, En) and v.ty == 'WasmMsg':
+    if isinstance(v, En) and v.short == 'WasmMsg':
         return En('CosmosMsg', 'Wasm', [v])
-    if isinstance(v, St) and v.ty == 'SubMsg':
+    if isinstance(v, St) and v.short == 'SubMsg':
         return v
     raise Unsupported('cannot convert to CosmosMsg: %r' % (v,))
 
